@@ -54,7 +54,12 @@ fn check_grid(case: &Value, skipped: &AtomicUsize, weak: &AtomicUsize) -> Option
         skipped.fetch_add(1, Ordering::Relaxed); // the local time does not exist in this zone
         return None;
     }
-    let iv = interval(case["unit"].as_str().unwrap(), case["n"].as_i64().unwrap());
+    // counts beyond TLC's integers come as q * per_day + r (TimeTrigger.tla, NextTimeBig)
+    let n = match case.get("n_q") {
+        Some(q) if !q.is_null() => q.as_i64().unwrap() * case["per_day"].as_i64().unwrap() + case["n_r"].as_i64().unwrap(),
+        _ => case["n"].as_i64().unwrap(),
+    };
+    let iv = interval(case["unit"].as_str().unwrap(), n);
     let modulate = case["mod"].as_bool().unwrap();
     for t in ts {
         let r = match catch(|| TimeTrigger::verif_next_time(t, iv, modulate)) {
@@ -194,7 +199,11 @@ fn check_history(ci: usize, case: &Value) -> Option<Value> {
 fn check_delay(case: &Value) -> Option<Value> {
     let t = *locals(&case["now"]).first()?;
     log4rs::verif::set_now(Some(t));
-    let doc = format!("interval: {} {}\nmodulate: {}\nmax_random_delay: 10\n", case["n"], case["unit"].as_str().unwrap(), case["mod"]);
+    let n = match case.get("n_q") {
+        Some(q) if !q.is_null() => q.as_i64().unwrap() * case["per_day"].as_i64().unwrap() + case["n_r"].as_i64().unwrap(),
+        _ => case["n"].as_i64().unwrap(),
+    };
+    let doc = format!("interval: {} {}\nmodulate: {}\nmax_random_delay: 10\n", n, case["unit"].as_str().unwrap(), case["mod"]);
     let r = catch(|| {
         let tc: TimeTriggerConfig = serde_yaml::from_str(&doc).expect("trigger config");
         TimeTrigger::new(tc).verif_scheduled()
